@@ -80,6 +80,18 @@ def parseOp (j : Json) : Except String Op := do
   | "pickle" => pure (.pickle (← getNat j "i"))
   | "isValid" => pure (.isValid (← getNat j "i"))
   | "checkValidity" => pure (.checkValidity (← getNat j "i"))
+  | "validateWith" =>
+    let src ← match j.getObjVal? "src" with
+      | .ok o => pure o
+      | .error _ => throw "missing src"
+    let vals ← (match src.getObjVal? "j", src.getObjVal? "kind" with
+      | .ok _, _ => do pure (ValSrc.member (← getNat src "j"))
+      | _, .ok _ => do pure (ValSrc.literal (← parseKind (← getStr src "kind")) (← getRats src "xs"))
+      | _, _ => pure ValSrc.own : Except String ValSrc)
+    let qk ← (match j.getObjVal? "qk" with
+      | .ok (.num _) => do pure (some (← getNat j "qk"))
+      | _ => pure none : Except String (Option Nat))
+    pure (.validateWith (← getNat j "i") vals qk)
   | "scribble" =>
     let how ← match (← getStr j "how") with
       | "edit" => pure Scribble.edit | "append" => pure Scribble.append | "clear" => pure Scribble.clear
@@ -157,6 +169,7 @@ def opMag (s : St) : Op → Rat
   | .pickle i => magSnap (snap s i)
   | .isValid i => magSnap (snap s i)
   | .checkValidity i => magSnap (snap s i)
+  | .validateWith i .. => magSnap (snap s i)
   | .scribble i .. => magSnap (snap s i)
   | .format i => magSnap (snap s i)
   | .changingIndex i _ v _ => maxR (magSnap (snap s i)) (operandMag s v)
@@ -181,6 +194,7 @@ def outJ (s : St) : Out → Json × Rat
     | _ => (Json.mkObj [("t", .str "dangling")], 0)
   | .bool b => (Json.mkObj [("t", .str "bool"), ("b", .bool b)], 0)
   | .unit => (Json.mkObj [("t", .str "unit")], 0)
+  | .raised e => (Json.mkObj [("t", .str "raised"), ("e", .str e.name)], 0)
 
 /-- pool members whose snapshot after the step differs from the one before -/
 def changedIdx (s s' : St) : List Nat :=
@@ -193,6 +207,7 @@ def runOps (db : Db) : St → List Op → List Json × St
     let m0 := opMag s op
     let j := match r.2 with
       | .error e => Json.mkObj [("err", .str e.name), ("changed", toJson (changedIdx s r.1))]
+      | .ok (.raised e) => Json.mkObj [("err", .str e.name), ("changed", toJson (changedIdx s r.1))]
       | .ok o =>
         let (oj, m) := outJ r.1 o
         Json.mkObj [("ok", oj), ("M", ratJ (maxR m0 m)), ("changed", toJson (changedIdx s r.1))]
